@@ -318,6 +318,46 @@ FROM_STR_ENTRY = '''
 '''
 
 
+# Spec validation (independent of /repo): the recogniser evaluated on concrete literals, among them the
+# inputs of D1/D2/D7 and the corner cases of the grammar.  Expected values are read off the statement:
+# None = must be an error, (c, n) = Ok(Decimal { coeff: c, n_frac_digits: n }).
+EXAMPLES = [
+    ('', None), ('+', None), ('-', None), ('.', None), ('+.', None), ('e5', None), ('+e3', None), (' ', None),
+    ('-4.33.2', None), ('2.87 e3', None), ('.4e3 ', None), ('1e', None), ('1e+', None), ('1e-', None), ('2.5e-', None),
+    ('1e+-5', None), ('1_0', None), ('1e5x', None), ('0x10', None),
+    ('0', (0, 0)), ('-0', (0, 0)), ('0.', (0, 0)), ('0e0', (0, 0)), ('0e5', (0, 0)), ('0.0e40', (0, 1 - 1)),
+    ('0e50', (0, 0)), ('0.00', (0, 2)), ('.5', (5, 1)), ('-.5', (-5, 1)), ('5.', (5, 0)), ('5.e1', (50, 0)),
+    ('1957945', (1957945, 0)), ('-17.5', (-175, 1)), ('+.75', (75, 2)), ('17e-5', (17, 5)), ('+217e3', (217000, 0)),
+    ('-533.7e-2', (-5337, 3)), ('700004.002E13', (7000040020000000000, 0)), ('+00028.700', (28700, 3)),
+    ('1e003', (1000, 0)), ('1e-18', (1, 18)), ('1e-19', None), ('1e38', (10 ** 38, 0)), ('1e39', None), ('1e40', None),
+    ('2e38', None), ('1e50', None), ('1e-99999999999999999999', None),
+    ('0.000000000000000000001', None), ('17.4e-38', None),
+    ('0.000000000000000000000000000000000000001e25', (1, 14)),
+    ('170141183460469231731687303715884105727', (2 ** 127 - 1, 0)),
+    ('-170141183460469231731687303715884105727', (-(2 ** 127 - 1), 0)),
+    ('170141183460469231731687303715884105728', None),
+    ('17014118346046923173168730371588410572.7e1', (2 ** 127 - 1, 0)),
+    ('340282366920938463463374607431768211456', None),
+    ('440282366920938463463374607431768211456', None),          # D1: 2^128 + 10^38
+    ('115792089237316195423570985008687907853269984665640564039457584007913129639936', None),   # 2^256
+    ('123456789012345678901234567890123.4567890', None),
+]
+
+
+def examples_text():
+    out = ['// ---- spec validation: lit_parse / parse_decimal_spec on concrete literals (by computation)']
+    for i, (lit, exp) in enumerate(EXAMPLES):
+        bs = ', '.join('0x%02xu8' % b for b in lit.encode())
+        sq = 'seq![%s]' % bs if bs else 'Seq::<u8>::empty()'
+        if exp is None:
+            rhs = 'None::<(int, int)>'
+        else:
+            rhs = 'Some((%dint, %dint))' % exp
+        out.append('// %r' % lit)
+        out.append('proof fn c06_example_%d() { assert(parse_decimal_spec(%s) == %s) by (compute); }' % (i, sq, rhs))
+    return '\n'.join(out) + '\n'
+
+
 def build():
     import runner
     try:
@@ -325,11 +365,17 @@ def build():
     except Exception:
         core = None
     cap, fixed = exp_cap(core)
-    u = Unit('parser', specs=['base.rs', 'rounding.rs', 'decimal.rs', 'parse.rs', 'std_parse.rs'],
+    u = Unit('parser', specs=['base.rs', 'parse.rs', 'std_parse.rs'],
              uses=['use core::str::FromStr;', 'use core::convert::TryFrom;'])
     u.raw(SPEC, 'parser-proof-scaffolding')
-    core_kernel.add_core_items(u)
-    common.add_decimal(u)
+    u.raw(examples_text(), 'parser-spec-examples')
+    # the only kernel item from_str needs: checked_mul_pow_ten, as a stub with the contract proved in unit
+    # core_kernel (core_kernel.add_core_items would drag in the whole rounding kernel and its spec library)
+    u.item('core', 'const MAX_N_FRAC_DIGITS')
+    ck = core_kernel.contracts()['powers_of_ten::checked_mul_pow_ten']
+    ck.stub = True
+    u.fn('core', 'powers_of_ten::checked_mul_pow_ten', ck)
+    common.add_decimal(u, consts=False)
     u.item('core', 'parser::enum ParseDecimalError')
     # K: proved by Kani on the full u64 domain (kani/swar.py)
     u.fn('core', 'parser::chunk_contains_8_digits',
